@@ -113,13 +113,14 @@ BInit ==
     IF Family = "prod"
     THEN /\ ver \in Versions
          /\ phase = "scenario" /\ verdict = FALSE /\ noesc = TRUE
+         /\ pre = NoPre /\ ccopy = EmptyPL /\ verdict0 = "na"
          /\ InitProd
     ELSE Init
 
 \* the scenario is chosen by BInit; one step (so that TLC's workers evaluate the invariants in parallel)
 BNext == /\ phase = "scenario"
          /\ phase' = "done"
-         /\ UNCHANGED <<ver, st, ev, verdict, noesc>>
+         /\ UNCHANGED <<ver, st, ev, verdict, noesc, pre, ccopy, verdict0>>
 BSpec == BInit /\ [][BNext]_vars
 
 \* THE BRIDGE INVARIANT
